@@ -50,7 +50,12 @@ pub mod ffi {
         idx: u64,
     ) {
         let idx = idx.try_into().ok();
-        match idx.and_then(|idx| this.get(idx)) {
+
+        // The list stays locked until the element has been cloned. A push
+        // by another thread could otherwise move or free the storage that
+        // `src` points into.
+        let raw = this.0.lock().unwrap();
+        match idx.and_then(|idx| raw.get(idx)) {
             Some(src) => {
                 // We got a pointer into the list, clone it into out at the correct alignment
 
@@ -63,7 +68,6 @@ pub mod ffi {
                 // `out` must be a valid RotoOption<T>.
                 unsafe { out.cast::<u8>().write(1) };
 
-                let raw = this.0.lock().unwrap();
                 let size = raw.vtable.size();
                 let alignment = raw.vtable.align();
                 let offset = 1usize.next_multiple_of(alignment);
@@ -240,7 +244,11 @@ pub mod boundary {
 
         /// Get the element at index `idx`
         pub fn get(&self, idx: usize) -> Option<T> {
-            let ptr = self.inner.get(idx)?;
+            // The list stays locked until the element has been cloned. A
+            // push by another thread could otherwise move or free the
+            // storage that `ptr` points into.
+            let guard = self.inner.0.lock().unwrap();
+            let ptr = guard.get(idx)?;
 
             // SAFETY: The list has values of T::Transformed, which means that
             // this cast is valid.
@@ -570,10 +578,6 @@ impl ErasedList {
         drop(raw);
 
         new
-    }
-
-    pub fn get(&self, idx: usize) -> Option<NonNull<T>> {
-        self.0.lock().unwrap().get(idx)
     }
 
     /// Check whether a list contains a value.
